@@ -124,7 +124,8 @@ where
 {
     input
         .into_iter()
-        .filter_map(|t| LanguageIdentifier::try_from_bytes(t.as_ref()).ok())
+        // `Accept-Language` allows optional whitespace around list elements ("es, fr")
+        .filter_map(|t| LanguageIdentifier::try_from_bytes(t.as_ref().trim_ascii()).ok())
         .collect()
 }
 
